@@ -750,9 +750,25 @@ class Interp:
         yield from loops.exec_while(self, node, st)
 
     def s_Import(self, node, st):
-        raise Unsupported("import inside function")
+        """`import a.b [as c]` inside a function: the import is performed by CPython itself (deterministic for the interpreter in use);
+        an ImportError is a raise path"""
+        import importlib
+        for alias in node.names:
+            try:
+                mod = importlib.import_module(alias.name)
+            except ImportError as e:
+                yield st, (RAISE, self.exc_from_instance(st, e))
+                return
+            if alias.asname:
+                st.env[alias.asname] = const(mod)
+            else:
+                top = alias.name.split(".")[0]
+                st.env[top] = const(importlib.import_module(top))
+        self.ctx.assume_note("imports inside functions are resolved by the interpreter running the check")
+        yield st, None
 
-    s_ImportFrom = s_Import
+    def s_ImportFrom(self, node, st):
+        raise Unsupported("from-import inside function")
 
     # ------------------------------------------------------------------ expressions
     def eval(self, node, st: St):
